@@ -485,13 +485,13 @@ where
     R: Buf,
 {
     let len = usize::try_from(len).expect("u32 did not fit into usize");
-    let bytes = reader.copy_to_bytes(len);
-    if bytes.len() < len {
-        Err(MsgPackReadError::Incomplete)
-    } else {
-        let blob = Vec::from(bytes.as_ref());
-        Ok(blob)
+    if reader.remaining() < len {
+        // `copy_to_bytes` panics when fewer bytes than requested are available.
+        return Err(MsgPackReadError::Incomplete);
     }
+    let bytes = reader.copy_to_bytes(len);
+    let blob = Vec::from(bytes.as_ref());
+    Ok(blob)
 }
 
 fn read_sub_record<R, Rec>(
